@@ -205,7 +205,8 @@ def model_one(g, text, c, dec, mult):
                 break
         if stop:
             break
-    touched = [nid for nid, val in sorted(acc.items()) if abs(val) >= EPS]
+    # documented rule: drop a node when |value| < EPS (a NaN accumulator - inf-inf after overflow - is therefore kept)
+    touched = [nid for nid, val in sorted(acc.items()) if not (abs(val) < EPS)]
     return touched, dict(pops=pops, iters=min(layers, c["layers"]), propagations=props, radius=rh, layer=lh, nodeb=nbh, maxd=maxd)
 
 
